@@ -79,6 +79,9 @@ XorBits(Vc, g, i) == IF g = 0 THEN 0
                      ELSE (IF g % 2 = 1 THEN Vc[i] ELSE 0) ^^ XorBits(Vc, g \div 2, i + 1)
 Direct(Vc, i) == XorBits(Vc, Gray(i), 1)
 SeekX(V, i) == [c \in DOMAIN V |-> Direct(V[c], i)]
+(* The same points in their natural order (the original definition: xor of V over the set bits of n itself).  The first 2^m   *)
+(* points are the same set for every m, so every demand of the statement holds for either enumeration.                     *)
+NaturalX(V, i) == [c \in DOMAIN V |-> XorBits(V[c], i, 1)]
 
 IndexOfSeed(seed) == seed - 1                \* as built: see the header
 InIndexRange(i) == i >= 0 /\ i < Pow2(Bits)
